@@ -82,6 +82,7 @@ type episode struct {
 	applied  bool // accept: T was seen applied
 	refused  int
 	lastT1   []byte // the last tampered answer for T+1
+	conns    []*rawPeer
 }
 
 func (e *episode) fullyServed() bool {
@@ -125,6 +126,7 @@ type director struct {
 	active    *episode
 	final     bool
 	hLimit    int64
+	teamClaim int64
 	held      []heldReq
 	lastMut   map[int64]string
 	H         *peerCtl
@@ -343,7 +345,10 @@ func (p *peerCtl) claimNow() int64 {
 	if p.honest {
 		return d.hLimit
 	}
-	return d.c.top
+	if d.spec.Kind == "mix" || d.spec.Kind == "silent" || d.final {
+		return d.c.top
+	}
+	return d.teamClaim
 }
 
 func (p *peerCtl) announce() {
@@ -475,6 +480,7 @@ func (d *director) respond(p *peerCtl, rp *rawPeer, h int64) (out []outMsg) {
 				out = append(out, outMsg{b: b, tampered: true, desc: fmt.Sprintf("%s (target %d) in answer to the request for height %d", e.mut.name, e.spec.T, h)})
 			}
 			e.peers[p] = true
+			e.conns = append(e.conns, rp)
 			d.lastMut[h] = e.mut.name
 			if e.fullyServed() {
 				e.errBase, e.servedAt = len(d.valErrs), time.Now()
@@ -511,6 +517,18 @@ func (d *director) activateNextLocked() *episode {
 		d.active = e
 		if e.minT-1 > d.hLimit {
 			d.hLimit = e.minT - 1
+		}
+		// the team announces no more than the episode needs: a request that is left open makes the pool
+		// time its peer out (15 s without a block, or a receive rate under 10 kB/s)
+		claim := e.spec.T + 1
+		if e.mut.expect == "accept" || e.mut.name == "genuine-then-tampered-duplicate" {
+			claim = e.spec.T + 2 // T goes through: somebody must still claim more than the node has
+		}
+		if claim > d.c.top {
+			claim = d.c.top
+		}
+		if claim > d.teamClaim {
+			d.teamClaim = claim
 		}
 		d.note("episode %s target %d (%s a validator-set change)", e.mut.name, e.spec.T, d.c.near(e.spec.T))
 		return e
@@ -675,9 +693,13 @@ func (d *director) runEpisodes() {
 		}
 		outcome := e.outcome
 		d.mtx.Unlock()
+		_ = ps
 		if outcome == "served-expect-sender-dropped" {
-			for _, p := range ps {
-				if rp := p.conn(); rp != nil && rp.waitClosed(2*time.Second) {
+			d.mtx.Lock()
+			conns := e.conns
+			d.mtx.Unlock()
+			for _, rp := range conns {
+				if rp.waitClosed(3 * time.Second) {
 					d.run.Count("senders_dropped_in_receive", 1)
 				} else {
 					d.run.Count("senders_not_dropped_although_expected", 1)
